@@ -16,6 +16,10 @@ fn main() {
         "C12" => engines::c11::main_c12(&args),
         "C26" => engines::c26::main(&args),
         "C26child" => engines::c26::child_main(),
+        "C21" => engines::c21::main(&args),
+        "C21child" => engines::c21::child_main(),
+        "C20" => engines::c20::main(&args),
+        "C20child" => engines::c20::child_main(),
         other => {
             eprintln!("unknown engine {other}");
             2
